@@ -22,6 +22,7 @@ NCPU = 16
 
 # per-property configuration: cases are per worker
 CONF = {
+    "C20": dict(level="exploration", workers=16, quick=dict(cases=500, size=50), thorough=dict(cases=3000, size=80)),
     "C01": dict(level="exploration", workers=16, quick=dict(cases=220, size=60), thorough=dict(cases=4000, size=100)),
     "C02": dict(level="exploration", workers=16, quick=dict(cases=4000, size=60), thorough=dict(cases=60000, size=100)),
     "C03": dict(level="exploration", workers=16, quick=dict(cases=4000, size=60), thorough=dict(cases=15000, size=100)),
